@@ -38,3 +38,14 @@ def test_field_getitem_aligned_box():
     field = df.Field(mesh, nvdim=1, value=np.arange(10.0).reshape(10, 1))
     sub = field[df.Region(p1=(0.3,), p2=(0.7,))]
     assert sub.array[..., 0].tolist() == [3.0, 4.0, 5.0, 6.0], sub.array[..., 0].tolist()
+
+
+def test_mesh_getitem_box_ending_on_region_face_is_refused():
+    """same root cause, other symptom: when the box ends on the region's own upper face and
+    (pmax - pmin) / cell rounds up (2.1 / 0.3 = 7.000000000000001) the ceil gives an index one
+    past the last cell and index2point raises IndexError - even for mesh[mesh.region]."""
+    mesh = df.Mesh(p1=(0.0,), p2=(2.1,), n=(7,))
+    sub = mesh[mesh.region]
+    assert sub.n.tolist() == [7]
+    field = df.Field(mesh, nvdim=1, value=np.arange(7.0).reshape(7, 1))
+    assert field[df.Region(p1=(0.075,), p2=(2.1,))].array[..., 0].tolist() == list(np.arange(7.0))
